@@ -149,7 +149,9 @@ def r_add_scan(model, rep, tier):
             # 'if not same: continue' + 'if different: raise' are the same thing)
             base = tuple(cx.ex.loop_guards.get(e.loops[0][0], ()))
             inner = [g for g in e.guards[len(base):]] if tuple(e.guards[:len(base)]) == base else list(facts.non_gate_guards(e))
-            ok = facts.guard_atoms(inner) == {facts.canon_guard((same, True)), facts.canon_guard((diff, True))}
+            # an image cannot conflict with itself: skipping the very object being added is not a weakening
+            not_self = facts.canon_guard((("cmp", ("is",), (cur, img)), False))
+            ok = facts.guard_atoms(inner) - {not_self} == {facts.canon_guard((same, True)), facts.canon_guard((diff, True))}
             msg = "the refusal must be conditioned exactly on: same identity (identify_image) and different checksums"
         if ok:
             exc = refusal_ev.value
